@@ -2428,18 +2428,27 @@ class VM:
                 return ""
             return s * int(count)
 
+        def search_string(args, method):
+            # A regular expression is refused (it would be searched as its source text)
+            if args and isinstance(args[0], JSRegExp):
+                raise JSTypeError(
+                    f"First argument to String.prototype.{method} must not be "
+                    "a regular expression"
+                )
+            return to_string(args[0] if args else UNDEFINED)
+
         def startsWith(*args):
-            search = to_string(args[0] if args else UNDEFINED)
+            search = search_string(args, "startsWith")
             pos = clamp(index_arg(args, 1))
             return s[pos:].startswith(search)
 
         def endsWith(*args):
-            search = to_string(args[0] if args else UNDEFINED)
+            search = search_string(args, "endsWith")
             length = clamp(index_arg(args, 1, len(s)))
             return s[:length].endswith(search)
 
         def includes(*args):
-            search = to_string(args[0] if args else UNDEFINED)
+            search = search_string(args, "includes")
             pos = clamp(index_arg(args, 1))
             return search in s[pos:]
 
